@@ -123,3 +123,11 @@ CLAIMS["C12"] = {
     "note": "Assumes the stated >= 5 min margin between tick times and TTL/idle boundaries because the implementation reads time.Now() for expiry and last access (not injectable without rewriting existing lines); per-entry idle ages and equality boundaries are therefore not explored.",
     "technique": "stateful property-based testing (rapid state machine) against a cache model with scripted provider outcomes",
 }
+
+CLAIMS["C13"] = {
+    "text": "A rapid state machine drives k8s.NewProvider over a fake clientset and fake watcher: pods with distinct names and IPs (pool of 4, re-used only after the holder was deleted) are added, updated (phase, host network, host IP, IP set/unset/changed, deletion timestamp, label and annotation edits) and deleted, "
+            "interleaved with lookups through Peek and through IpSink->InfoSource, under label/annotation regexes with and without the named group 'tag' (incl. a group that can match empty text). After every watch event a sentinel-pod barrier guarantees that the provider's invalidation handlers ran; every lookup is compared with a pod model: "
+            "identity namespace/name and the tag multiset of the running, non-host-network, non-terminating pod holding the IP, or nothing. Stale answers (memoised before an update/delete) are what the non-trivial cases target. Exploration.",
+    "note": "Quiescent-point lookups only; relies on client-go's in-order handler notifications for the barrier.",
+    "technique": "stateful property-based testing (rapid state machine) against a pod model with a black-box quiescence barrier",
+}
